@@ -5,7 +5,7 @@ hx = lambda b: binascii.hexlify(b if isinstance(b, (bytes, bytearray)) else b.en
 BASE = "@W@"       # replaced by the shard's scratch directory by the runner (same string on both sides)
 NAMES = ["a.txt", "b.html", "c", "d.tar.gz", "é.png", "x.html", "index.html", "page", "sub", "s2", "style.css", "404.html", "data.bin",
          ".hidden", "a b", "q&r.txt", "up.js", "f.HTML", "noext.", "k.json", "a#f", "m.svg", "v.mp4", "deep", "w.wasm", "t.TXT", "n.tar", "z.min.js",
-         "notes..txt", "..rc", "x..", "...", "v1..v2.html"]      # consecutive dots that are not a parent-directory segment
+         "notes..txt", "..rc", "x..", "...", "v1..v2.html", "v1..2", "..d", "rel..", "a..b..c"]      # consecutive dots that are not a parent-directory segment
 RANGES = ["bytes=0-", "bytes=2-5", "bytes=-3", "bytes=9-9", "bytes=10-10", "bytes=0-10", "bytes=0-11", "bytes=-11", "bytes=5-2", "bytes=0-0,2-3",
           "bytes= 1 - 2 , 4-4", "bytes=a-b", "bytes=1-18446744073709551615", "bytes=1-18446744073709551616", "bytes=--1", "bytes=", "bytes=,,",
           "items=0-1", "bytes=-0", "bytes=0-1=2-3", "bytes=-18446744073709551615", "bytes=0-0", "bytes=1-1,3-3,5-5", "bytes=-1", "bytes=0-,1-"]
@@ -76,6 +76,10 @@ def gen_target(rnd, t):
     r = rnd.random()
     if t.has("outer/root/sub/up.txt") and rnd.random() < 0.5:
         return "/sub/up.txt"
+    dotted = [x for x in inroot if ".." in x]
+    if dotted and rnd.random() < 0.4:
+        # a harmless name with consecutive dots first, a real climb after it (a check that stops at the first occurrence)
+        return rnd.choice(dotted) + "/" + "../" * rnd.choice([1, 2, 2, 3, 4]) + rnd.choice(["secret5.txt", "secret0.txt", "outer/secret5.txt", "rootx/leak.txt", "root.html", "a.txt"])
     if rnd.random() < 0.06:
         # long targets: many harmless segments, then a climb (a scan that stops early, a counter that wraps)
         k = rnd.choice([15, 30, 31, 32, 33, 64, 127, 128, 255, 256, 300])
